@@ -23,14 +23,6 @@ from . import terms as tm
 from .terms import T, Unsupported
 
 
-class _Timeout(Exception):
-    pass
-
-
-def _alarm(sig, frm):
-    raise _Timeout()
-
-
 def _collect(roots: Sequence[T]):
     sub = sorted(tm.subterms(roots), key=lambda x: x.id)
     vars_, atoms = [], []
@@ -51,15 +43,16 @@ def _collect(roots: Sequence[T]):
 
 
 def identity(pc: Sequence[T], a: T, b: T, timeout_s: float = 20.0) -> Tuple[bool, str]:
-    old = signal.signal(signal.SIGALRM, _alarm)
-    signal.setitimer(signal.ITIMER_REAL, max(0.5, timeout_s))
+    from .timer import Timeout, deadline, expired_here
+
+    t0 = time.time()
     try:
-        return _identity(pc, a, b)
-    except _Timeout:
-        return False, "poly: timeout"
-    finally:
-        signal.setitimer(signal.ITIMER_REAL, 0)
-        signal.signal(signal.SIGALRM, old)
+        with deadline(max(0.5, timeout_s)):
+            return _identity(pc, a, b)
+    except Timeout:
+        if expired_here(t0, max(0.5, timeout_s)):
+            return False, "poly: timeout"
+        raise
 
 
 def _identity(pc, a: T, b: T):
